@@ -4,6 +4,7 @@ import (
 	"fmt"
 	"go/types"
 	"strconv"
+	"strings"
 
 	"golang.org/x/tools/go/ssa"
 )
@@ -288,4 +289,99 @@ func (fr *frame) nextOp(st *PState, ins *ssa.Next) Val {
 	val := WithGo(Select(vals, key, vs), rv.MT.Elem())
 	st.cells[rv.IdxC] = st.Name("rngidx", Ite(okc, App(SInt, "+", idx, IntLit(1)), idx))
 	return &TupleVal{Elems: []Val{okc, key, val}}
+}
+
+// ---------------------------------------------------------------------------------------------
+// syntactic select-over-store resolution for freshly built variadic slices
+//
+// AppendMany(a, b, c) receives its parts through a slice the caller has just filled: the element terms are
+// (select (select SH base) i) over a chain of stores. Byte-string concatenation is kept in a right-nested normal form
+// by Cat, which cannot see through a select; resolving the reads here (pure rewriting with the array axioms, bases
+// (+ REF0 k) with different literal k being different integers) lets a key built from parts that are themselves
+// concatenations reach the normal form the specifications use.
+
+func (st *PState) defOf(name string) (string, bool) {
+	pfx := "(define-fun " + name + " () "
+	for i := len(st.decls) - 1; i >= 0; i-- {
+		d := st.decls[i]
+		if strings.HasPrefix(d, pfx) {
+			sx, err := parseSexprs(d)
+			if err != nil || len(sx) != 1 || len(sx[0].list) != 5 {
+				return "", false
+			}
+			return sx[0].list[4].String(), true
+		}
+	}
+	return "", false
+}
+
+func refOffset(s string) (int, bool) {
+	sx, err := parseSexprs(s)
+	if err != nil || len(sx) != 1 || len(sx[0].list) != 3 || sx[0].list[0].atom != "+" || sx[0].list[1].atom != "REF0" {
+		return 0, false
+	}
+	n, err := strconv.Atoi(sx[0].list[2].atom)
+	return n, err == nil
+}
+
+// resolveSelect rewrites (select arr idx) when arr is a chain of stores whose indices are syntactically equal to idx or
+// provably different from it (distinct literals, distinct (+ REF0 k)).
+func (st *PState) resolveSelect(arr string, idx string) (string, bool) {
+	for n := 0; n < 64; n++ {
+		if !strings.HasPrefix(arr, "(") {
+			body, ok := st.defOf(arr)
+			if !ok {
+				return "", false
+			}
+			arr = body
+			continue
+		}
+		sx, err := parseSexprs(arr)
+		if err != nil || len(sx) != 1 || len(sx[0].list) != 4 || sx[0].list[0].atom != "store" {
+			return "", false
+		}
+		j := sx[0].list[2].String()
+		if j == idx {
+			return sx[0].list[3].String(), true
+		}
+		differ := false
+		if a, e1 := strconv.Atoi(j); e1 == nil {
+			if b, e2 := strconv.Atoi(idx); e2 == nil && a != b {
+				differ = true
+			}
+		}
+		if a, ok1 := refOffset(j); ok1 {
+			if b, ok2 := refOffset(idx); ok2 && a != b {
+				differ = true
+			}
+		}
+		if !differ {
+			return "", false
+		}
+		arr = sx[0].list[1].String()
+	}
+	return "", false
+}
+
+// resolvedSliceElem is SliceElem with the read resolved syntactically where the slice is (mkSlice base off ...) with a
+// literal offset and the backing array was written at literal indices; ok=false leaves the caller with SliceElem.
+func (st *PState) resolvedSliceElem(s T, i int, elem types.Type) (T, bool) {
+	sx, err := parseSexprs(s.S)
+	if err != nil || len(sx) != 1 || len(sx[0].list) != 5 || sx[0].list[0].atom != "mkSlice" {
+		return T{}, false
+	}
+	off, err := strconv.Atoi(sx[0].list[2].atom)
+	if err != nil {
+		return T{}, false
+	}
+	_, h, es := st.sliceHeap(elem)
+	cell, ok := st.resolveSelect(h.S, sx[0].list[1].String())
+	if !ok {
+		return T{}, false
+	}
+	v, ok := st.resolveSelect(cell, strconv.Itoa(off+i))
+	if !ok {
+		return T{}, false
+	}
+	return WithGo(T{S: v, Sort: es}, elem), true
 }
